@@ -17,6 +17,10 @@
      writer  = WriterStep pops ONE frame
      closing = HandlerReturn (handler future resolves)          THEN  CloseNotify (the spawned task's `method_sink.send`)
 
+   `sent cn = c_wire cn ++ c_queue cn` only ever grows: a connection the client dropped keeps what was queued (it is
+   never written: WriterStep needs an open connection); a connection the server ends (graceful stop) writes its queue
+   first.  A reject / failed accept / unanswered return makes the library drop the handler future (s_returned).
+
    DropSink models the REPAIRED drop (fixes/C06.patch): the table entry is removed by a guard shared by all clones,
    i.e. when the LAST clone goes.  The unrepaired `Drop for SubscriptionSink` (any clone removes the entry) is kept
    as `drop_sink_old` / `step_old` so that the history stays visible (C06_stays_active_refuted_old).
